@@ -50,7 +50,8 @@ def installed(fs):
     import builtins
     import io
     from . import simfs
-    saved = (builtins.open, io.open, os.path.isfile, os.path.exists, os.path.getsize, os.stat, os.path.getmtime)
+    saved = (builtins.open, io.open, os.path.isfile, os.path.exists, os.path.getsize, os.stat, os.path.getmtime,
+             os.fsync, os.fstat)
 
     def p_isfile(p):
         return fs.isfile(p) if simfs.sim_name(p) is not None else saved[2](p)
@@ -64,18 +65,28 @@ def installed(fs):
     def p_getmtime(p):
         return fs.getmtime(p) if simfs.sim_name(p) is not None else saved[6](p)
 
+    def p_fsync(fd):
+        if hasattr(fd, 'fileno'):
+            fd = fd.fileno()
+        return fs.fsync(fd) if fs.by_fd(fd) is not None else saved[7](fd)
+
+    def p_fstat(fd):
+        return fs.fstat(fd) if fs.by_fd(fd) is not None else saved[8](fd)
+
     def p_stat(p, *a, **kw):
         return fs.stat(p) if simfs.sim_name(p) is not None else saved[5](p, *a, **kw)
     builtins.open = fs.open
     io.open = fs.open
     os.path.isfile, os.path.exists, os.path.getsize, os.stat = p_isfile, p_exists, p_getsize, p_stat
     os.path.getmtime = p_getmtime
+    os.fsync, os.fstat = p_fsync, p_fstat
     try:
         yield fs
     finally:
         builtins.open, io.open = saved[0], saved[1]
         os.path.isfile, os.path.exists, os.path.getsize, os.stat = saved[2:6]
         os.path.getmtime = saved[6]
+        os.fsync, os.fstat = saved[7], saved[8]
 
 
 class _Sink(object):
